@@ -516,6 +516,20 @@ def form_name(row):
     return "%s %s" % (row["mn"], ",".join(parts)) if parts else row["mn"]
 
 
+def letters_of(row):
+    """letter -> operand spec (the q of an index operand included)"""
+    out = {}
+    for o in row["operands"]:
+        if o["kind"] == "index":
+            if "q" in o:
+                out[o["q"]["letter"]] = o["q"]
+        else:
+            out[o["letter"]] = o
+            if o.get("also"):
+                out[o["also"]] = o
+    return out
+
+
 def analyse(P):
     """-> dict (JSON-able) with one record per (row, operand-kind shape) and per unmatched Ok path."""
     import pickle
@@ -551,6 +565,8 @@ def analyse(P):
                 dep |= {s[1] for s in sx.syms(b) if "get_device" in s[1]}
             if dep:
                 out["device_reads"].append({"op": ep.op, "syms": sorted(dep)})
+    rc_regs = spec["reduced_core"]["registers"]
+    out["rc_absent_ops"] = spec["reduced_core"]["absent_ops"]
     for ep in res["paths"]:
         if ep.exit != "Ok":
             continue
@@ -577,10 +593,21 @@ def analyse(P):
                 for f in c.findings:
                     if f not in g["findings"]:
                         g["findings"].append(f)
-                for L, d in c.accepted.items():
-                    g["accepted"][L] = sx.dom_union(g["accepted"][L], d) if L in g["accepted"] else d
+                # a path that has not asked which core it runs on speaks for both cores
+                views = []
+                if r["core"] != "any" or ep.core in ("any", "std"):
+                    views.append("accepted")
+                if r["core"] == "any" and ep.core in ("any", "avr8l"):
+                    views.append("accepted_rc")
+                for view in views:
+                    acc = g.setdefault(view, {})
+                    for L, d in c.accepted.items():
+                        acc[L] = sx.dom_union(acc[L], d) if L in acc else d
                 for L, d in c.legal.items():
                     g["legal"][L] = d
+                    if r["core"] == "any":
+                        ro = letters_of(r).get(L)
+                        g.setdefault("legal_rc", {})[L] = _dom_intersect(d, sx.dom_set(rc_regs)) if ro and ro["kind"] == "reg" else d
                 if ep.len_dom is not None:
                     g["len_dom"] = sx.dom_union(g["len_dom"], ep.len_dom) if g["len_dom"] is not None else ep.len_dom
                 if "enc" in c.method:
